@@ -108,6 +108,13 @@ fn main() {
             let index: u64 = args[4].parse().unwrap();
             dispatch!(id.as_str(), child_minimise, tier, index)
         }
+        "dump" => {
+            let id = args[2].clone();
+            let tier = tier_of(args.get(3));
+            let index: u64 = args[4].parse().unwrap();
+            use runner::dump_case;
+            dispatch!(id.as_str(), dump_case, tier, index)
+        }
         "--replay-worker" => {
             let path = args.get(2).cloned().unwrap_or_default();
             let j = load(&path);
